@@ -119,6 +119,13 @@ Record mirror_cfg := { mi_host : str; mi_port : Z; mi_target : Z }.
 (* [mirrors: Option<Vec<..>>]: None and Some [] behave alike in from_config (366-390) *)
 Record shard := { sh_servers : list server; sh_mirrors : list mirror_cfg }.
 
+(* config.rs PoolMode *)
+Inductive mode := Transaction | Session.
+
+(* config.rs Plugins: the sections the grammar writes (intercept / prewarmer stay absent) *)
+Record plug := { pl_table_access : option (bool * list str);   (* enabled, tables *)
+                 pl_query_logger : option bool }.              (* enabled *)
+
 Record user := {
   u_name : str;
   u_password : bool;                  (* password.is_some() *)
@@ -126,7 +133,9 @@ Record user := {
   u_min_pool_size : option Z;
   u_connect_timeout : option Z;
   u_idle_timeout : option Z;
-  u_server_lifetime : option Z }.
+  u_server_lifetime : option Z;
+  u_pool_mode : option mode;
+  u_statement_timeout : Z }.
 
 Record pool := {
   p_name : str;
@@ -134,7 +143,8 @@ Record pool := {
   p_default_shard : dshard;
   p_parser : bool;                    (* query_parser_enabled *)
   p_rw_split : bool;                  (* query_parser_read_write_splitting *)
-  p_plugins : bool;                   (* plugins.is_some() *)
+  p_plugins : option plug;            (* [pools.<name>.plugins] *)
+  p_pool_mode : mode;
   p_auto_key : option str;            (* automatic_sharding_key *)
   (* sharding_key_regex / shard_id_regex: None = absent, Some b = present and
      [Regex::new] answers Ok iff b (the regex crate is environment) *)
@@ -153,7 +163,14 @@ Record pool := {
 Record config := {
   g_auth_query : bool; g_auth_user : bool; g_auth_password : bool;
   g_connect_timeout : Z; g_idle_timeout : Z; g_server_lifetime : Z;
+  (* tls_certificate / tls_private_key: None = not set, Some b = set and tls::load_certs /
+     tls::load_keys on that path answers Ok iff b (file system and rustls_pemfile are environment) *)
+  g_tls_cert : option bool; g_tls_key : option bool;
+  g_plugins : option plug;            (* top-level [plugins] *)
   c_pools : list pool }.
+
+Definition has_plugins (p : pool) : bool :=
+  match p_plugins p with Some _ => true | None => false end.
 
 (* General::default_* (config.rs:390, 413, 386), used by the driver for omitted keys *)
 Definition default_connect_timeout : Z := 1000.
@@ -242,7 +259,7 @@ Definition regex_bad (o : option bool) : bool :=
 Definition auto_key_ok (o : option str) : bool :=
   match o with
   | None => true
-  | Some k => Nat.eqb (length (filter (fun c => c =? 46) (filter (fun c => negb (c =? 34)) k))) 1
+  | Some k => Nat.eqb (length (filter (fun c => c =? 46) (filter (fun ch => negb (ch =? 34)) k))) 1
   end.
 
 (* config.rs:701-831, in order *)
@@ -255,7 +272,7 @@ Definition pool_validate (p : pool) : bool :=
     if (match sorted with [] => true | _ => false end) || negb (check_enum 0 sorted) then false else
     if regex_bad (p_shard_regex p) || regex_bad (p_key_regex p) then false else
     if p_rw_split p && negb (p_parser p) then false else
-    if p_plugins p && negb (p_parser p) then false else
+    if has_plugins p && negb (p_parser p) then false else
     if negb (auto_key_ok (p_auto_key p)) then false else
     if is_some_zero (p_connect_timeout p) || is_some_zero (p_idle_timeout p)
        || is_some_zero (p_server_lifetime p) then false else
@@ -271,6 +288,7 @@ Definition pool_validate (p : pool) : bool :=
 Definition fill_pool (c : config) (p : pool) : pool :=
   {| p_name := p_name p; p_default_role := p_default_role p; p_default_shard := p_default_shard p;
      p_parser := p_parser p; p_rw_split := p_rw_split p; p_plugins := p_plugins p;
+     p_pool_mode := p_pool_mode p;
      p_auto_key := p_auto_key p; p_key_regex := p_key_regex p; p_shard_regex := p_shard_regex p;
      p_auth_query := p_auth_query p || g_auth_query c;
      p_auth_user := p_auth_user p || g_auth_user c;
@@ -284,6 +302,7 @@ Definition fill_up (c : config) : config :=
   {| g_auth_query := g_auth_query c; g_auth_user := g_auth_user c; g_auth_password := g_auth_password c;
      g_connect_timeout := g_connect_timeout c; g_idle_timeout := g_idle_timeout c;
      g_server_lifetime := g_server_lifetime c;
+     g_tls_cert := g_tls_cert c; g_tls_key := g_tls_key c; g_plugins := g_plugins c;
      c_pools := map (fill_pool c) (c_pools c) |}.
 
 (* config.rs:1544-1574 for one pool *)
@@ -292,11 +311,21 @@ Definition pool_auth_bad (p : pool) : bool :=
   || existsb (fun ku => (negb (p_auth_query p) || negb (p_auth_password p) || negb (p_auth_user p))
                         && negb (u_password (snd ku))) (p_users p).
 
-(* config.rs:1516-1610 (the TLS block, 1580-1606, is outside the grammar: no certificate set) *)
+(* config.rs:1580-1606: only looked at when tls_certificate is set; the certificate must load,
+   then the key must be set and load; on success validation CONTINUES with the pools *)
+Definition tls_ok (c : config) : bool :=
+  match g_tls_cert c with
+  | None => true
+  | Some false => false
+  | Some true => match g_tls_key c with Some true => true | _ => false end
+  end.
+
+(* config.rs:1516-1613, in order *)
 Definition config_validate (c : config) : bool :=
   if g_auth_query c && (negb (g_auth_user c) || negb (g_auth_password c)) then false else
   if (g_connect_timeout c =? 0) || (g_idle_timeout c =? 0) || (g_server_lifetime c =? 0) then false else
   if existsb pool_auth_bad (c_pools c) then false else
+  if negb (tls_ok c) then false else
   forallb pool_validate (c_pools c).
 
 (* config.rs:1654-1655 *)
@@ -324,7 +353,8 @@ Record maddr := { ma_host : str; ma_port : Z; ma_role : role; ma_index : nat;
 Record address := { a_host : str; a_port : Z; a_role : role; a_shard : Z; a_index : nat;
                     a_replica_number : Z; a_mirrors : list maddr }.
 (* a bb8 pool is identified by the address its manager connects to *)
-Record bb8pool := { b_address : address; b_max_size : Z; b_min_idle : option Z }.
+Record bb8pool := { b_address : address; b_max_size : Z; b_min_idle : option Z;
+                    b_connect_timeout : Z; b_idle_timeout : Z; b_max_lifetime : Z }.
 
 Record built := {
   bp_db : str; bp_user : str;
@@ -334,7 +364,12 @@ Record built := {
   bp_settings_shards : nat;                 (* settings.shards = shard_ids.len() *)
   bp_default_shard : dshard;
   bp_default_role : option role;
-  bp_pool_size : Z }.
+  bp_pool_size : Z;
+  bp_pool_mode : mode;                      (* settings.pool_mode *)
+  bp_plugins : option plug;                 (* settings.plugins *)
+  bp_user_cfg : user;                       (* settings.user *)
+  bp_auto_key : option str;                 (* settings.automatic_sharding_key *)
+  bp_parser : bool; bp_rw_split : bool }.
 
 Definition eff (u p : option Z) (g : Z) : Z :=
   match u with Some x => x | None => match p with Some x => x | None => g end end.
@@ -446,8 +481,15 @@ Definition role_setting (s : str) : option (option role) :=
   else if str_eqb s s_primary then Some (Some Primary)
   else None.
 
-Definition mk_pool (u : user) (a : address) : bb8pool :=
-  {| b_address := a; b_max_size := u_pool_size u; b_min_idle := u_min_pool_size u |}.
+(* pool.rs:464-511: user over pool over [general] for the three timeouts *)
+Definition mk_pool (c : config) (p : pool) (u : user) (a : address) : bb8pool :=
+  {| b_address := a; b_max_size := u_pool_size u; b_min_idle := u_min_pool_size u;
+     b_connect_timeout := eff (u_connect_timeout u) (p_connect_timeout p) (g_connect_timeout c);
+     b_idle_timeout := eff (u_idle_timeout u) (p_idle_timeout p) (g_idle_timeout c);
+     b_max_lifetime := eff (u_server_lifetime u) (p_server_lifetime p) (g_server_lifetime c) |}.
+
+(* config.rs:772-789: Pool::validate stores the key with its quotes removed *)
+Definition unquote (k : str) : str := filter (fun ch => negb (ch =? 34)) k.
 
 (* pool.rs:344-610 for one (pool, user) *)
 Definition build_pool_user (c : config) (p : pool) (u : user) : outcome built :=
@@ -462,13 +504,21 @@ Definition build_pool_user (c : config) (p : pool) (u : user) : outcome built :=
           | Some dr =>
               if regex_bad (p_key_regex p) || regex_bad (p_shard_regex p) then Panics PanicRegex else
               Built {| bp_db := p_name p; bp_user := u_name u;
-                       bp_databases := map (map (mk_pool u)) rows;
+                       bp_databases := map (map (mk_pool c p u)) rows;
                        bp_addresses := rows;
                        bp_banlist := map (fun _ => tt) rows;
                        bp_settings_shards := length kl;
                        bp_default_shard := p_default_shard p;
                        bp_default_role := dr;
-                       bp_pool_size := u_pool_size u |}
+                       bp_pool_size := u_pool_size u;
+                       (* pool.rs:544-547: the user's pool_mode, else the pool's *)
+                       bp_pool_mode := match u_pool_mode u with Some m => m | None => p_pool_mode p end;
+                       (* pool.rs:587-590 (and 455-458 for the server manager): the pool's
+                          [plugins] table as a whole, else the global one *)
+                       bp_plugins := match p_plugins p with Some x => Some x | None => g_plugins c end;
+                       bp_user_cfg := u;
+                       bp_auto_key := option_map unquote (p_auto_key p);
+                       bp_parser := p_parser p; bp_rw_split := p_rw_split p |}
           end
       end
   end.
@@ -571,16 +621,32 @@ Definition server_of (a : address) : server :=
 Definition maddr_t (m : maddr) := (ma_host m, ma_port m, ma_role m, ma_shard m, ma_index m, ma_replica_number m).
 Definition addr_t (a : address) :=
   (a_host a, a_port a, a_role a, a_shard a, a_index a, a_replica_number a, map maddr_t (a_mirrors a)).
+Definition plug_t (x : plug) := (pl_table_access x, pl_query_logger x).
+Definition user_t (u : user) :=
+  (u_name u, u_pool_size u, u_min_pool_size u, (u_pool_mode u, u_statement_timeout u),
+   (u_connect_timeout u, u_idle_timeout u, u_server_lifetime u)).
+Definition settings_t (bp : built) :=
+  (bp_pool_mode bp, option_map plug_t (bp_plugins bp), user_t (bp_user_cfg bp),
+   (bp_auto_key bp, bp_parser bp, bp_rw_split bp),
+   (* the bb8 builder arguments of the first server (all servers of a (pool, user) share them) *)
+   match bp_databases bp with
+   | (b :: _) :: _ => Some (b_max_size b, b_min_idle b, (b_connect_timeout b, b_idle_timeout b, b_max_lifetime b))
+   | _ => None
+   end).
 Definition built_t (bp : built) :=
   (bp_db bp, bp_user bp, (shards bp, bp_settings_shards bp, bp_pool_size bp),
    (bp_default_shard bp, bp_default_role bp, indices_ok bp),
-   map (map addr_t) (bp_addresses bp)).
+   map (map addr_t) (bp_addresses bp), settings_t bp).
 
 Inductive result :=
 | Rejected
 | AcceptedPanics (why : panic)
 | AcceptedBuilt (pools : list (str * str * (nat * nat * Z) * (dshard * option role * bool)
-                               * list (list (str * Z * role * Z * nat * Z * list (str * Z * role * Z * nat * Z))))).
+                               * list (list (str * Z * role * Z * nat * Z * list (str * Z * role * Z * nat * Z)))
+                               * (mode * option (option (bool * list str) * option bool)
+                                  * (str * Z * option Z * (option mode * Z) * (option Z * option Z * option Z))
+                                  * (option str * bool * bool)
+                                  * option (Z * option Z * (Z * Z * Z))))).
 
 Definition run (c : config) : result :=
   if accept c then
